@@ -95,6 +95,11 @@ def gen_config(r, idx):
 
 # budget smaller than the launch loop, preloaded grid at the budget: the launch loop of the parallel mode (witness)
 CORPUS = [
+    # a sample that is still being computed stops being a candidate (comment in CandidateManager::complete): lat=3 sets the scenario up
+    {"idx": "w-running-job-dropped", "mode": "cs", "seed": 11, "lat": 3, "yield": 0, "jobs": 2, "outs": 1, "batch": 1, "guess": 0, "preload": 0,
+     "grid": "localp", "cand": "surplus", "dims": 1, "depth": 1, "order": 1, "tol": 1e-2, "crit": "classic", "limit": -1, "budget": 25},
+    {"idx": "w-running-job-dropped-api", "mode": "api", "seed": 12, "lat": 3, "yield": 0, "jobs": 2, "outs": 1, "batch": 1, "guess": 0, "preload": 0,
+     "grid": "localp", "cand": "surplus", "dims": 1, "depth": 1, "order": 1, "tol": 1e-2, "crit": "classic", "limit": -1, "budget": 25},
     {"idx": "w-budget-lt-jobs", "mode": "cs", "seed": 7, "lat": 0, "yield": 0, "jobs": 4, "outs": 1, "batch": 1, "guess": 0, "preload": 0,
      "grid": "localp", "cand": "surplus", "dims": 2, "depth": 1, "order": 1, "tol": 1e-3, "crit": "classic", "limit": -1, "budget": 2},
     {"idx": "w-budget-preloaded", "mode": "api", "seed": 8, "lat": 0, "yield": 0, "jobs": 3, "outs": 1, "batch": 1, "guess": 0, "preload": 1,
